@@ -8,7 +8,7 @@ sys.path.insert(0, os.path.dirname(os.path.dirname(os.path.abspath(__file__))))
 import core   # noqa: E402
 import amod   # noqa: E402
 
-INVS = ["ExactlyOnce", "Lossless", "SameOrder", "CbSafe", "RcBalance"]
+INVS = ["ExactlyOnce", "Lossless", "SameOrder", "CallOrder", "CbSafe", "RcBalance"]
 
 
 def run(tier, seed, mutant=None, only_validate=False):
@@ -21,20 +21,27 @@ def run(tier, seed, mutant=None, only_validate=False):
             for aw, bf in ((True, False), (True, True)):
                 for sync in (False, True):
                     r, rec = amod.mc(res, work, "DaskFlow", "await%d_buffered%d_sync%d" % (aw, bf, sync),
-                                     dict(NE=ne, Await=aw, Buffered=bf, SyncCons=sync), INVS, ["AllDelivered"], spec="FairSpec",
+                                     dict(NE=ne, Await=aw, Buffered=bf, SyncCons=sync, Turn=True), INVS, ["AllDelivered"], spec="FairSpec",
                                      coverage=False)
                     amod.spec_violation(res, r, rec, {}, "C20", "dask")
             # a producer that does not await its emits: everything but the order holds; the loss of order is exhibited
             for bf in (False, True):
-                r, rec = amod.mc(res, work, "DaskFlow", "fire_and_forget_buffered%d" % bf, dict(NE=ne, Await=False, Buffered=bf, SyncCons=False),
+                r, rec = amod.mc(res, work, "DaskFlow", "fire_and_forget_buffered%d" % bf, dict(NE=ne, Await=False, Buffered=bf, SyncCons=False, Turn=True),
                                  [i for i in INVS if i != "SameOrder"], ["AllDelivered"], spec="FairSpec", coverage=False)
                 amod.spec_violation(res, r, rec, {}, "C20", "dask")
-            r, rec = amod.mc(res, work, "DaskFlow", "fire_and_forget_order", dict(NE=3, Await=False, Buffered=False, SyncCons=False),
+            r, rec = amod.mc(res, work, "DaskFlow", "fire_and_forget_order", dict(NE=3, Await=False, Buffered=False, SyncCons=False, Turn=True),
                              ["SameOrder"], coverage=False)
             rec["expected_violation"] = "SameOrder"
             rec["ok"] = r.violated == "SameOrder"
             if r.violated != "SameOrder":
-                raise core.MachineryError("expected counter-example to SameOrder (known finding F18) not found")
+                raise core.MachineryError("expected counter-example to SameOrder (unordered concurrent scatter calls) not found")
+            # sensitivity: gather as in the pinned tree (no turns, finding F22) loses the call order
+            r, rec = amod.mc(res, work, "DaskFlow", "legacy_no_turn", dict(NE=3, Await=False, Buffered=False, SyncCons=False, Turn=False),
+                             ["CallOrder"], coverage=False)
+            rec["expected_violation"] = "CallOrder"
+            rec["ok"] = r.violated == "CallOrder"
+            if r.violated != "CallOrder":
+                raise core.MachineryError("sensitivity: DaskFlow without gather turns must violate CallOrder")
         out = os.path.join(work, "runs")
         args = ["--tier", tier, "--seed", seed, "--out", out]
         if mutant:
@@ -49,7 +56,7 @@ def run(tier, seed, mutant=None, only_validate=False):
             c = r["cfg"]
             key = (c["n"], c["await"], c["shape"] in ("map_buffer",), c["cons"] == "sync")
             groups.setdefault(key, []).append({"id": r["id"], "ev": r["ev"]})
-        glist = [("dask n=%s await=%s buffered=%s sync=%s" % k, dict(NE=k[0], Await=k[1], Buffered=k[2], SyncCons=k[3]), ts)
+        glist = [("dask n=%s await=%s buffered=%s sync=%s" % k, dict(NE=k[0], Await=k[1], Buffered=k[2], SyncCons=k[3], Turn=True), ts)
                  for k, ts in groups.items()]
         reached, problems = amod.validate_groups(work, "DaskFlowTrace", glist, timeout=1800)
         unsafe = getattr(amod.validate_groups, "unsafe", {})
@@ -69,7 +76,9 @@ def run(tier, seed, mutant=None, only_validate=False):
                 continue
             c = r["cfg"]
             for lidx in sorted(unsafe.get(r["id"], ())):
-                if lidx < got[0] or got[0] >= got[1]:
+                # (a producer that does not await its emits leaves the order of its concurrent scatter.update calls open:
+                # for such runs only gather's call order -- CallOrder, part of TraceInv -- is demanded)
+                if (lidx < got[0] or got[0] >= got[1]) and c["await"]:
                     serialised = c["await"]
                     res.violations.append(dict(
                         property="C20", engine="adask", clause="SameOrder",
@@ -90,6 +99,7 @@ def run(tier, seed, mutant=None, only_validate=False):
                          % (json.dumps(c, sort_keys=True), r["order"], got[0], e, r["delivered"]),
                     signature=dict(kind="trace", event=e["ev"], shape=c["shape"]),
                     replay=dict(engine="adask", cfg=c, order=r["order"], at=got[0], trace=r["ev"][:got[0] + 1])))
+        observer(res, work, out, nt)
         res.nontrivial = len(nt)
         res.rule = ("adask: scatter -> {map, map+buffer, map.map, accumulate, starmap} -> gather on an in-process distributed cluster x producer "
                     "{awaits every emit, fire-and-forget} x consumer {Future, synchronous} x task completion orders forced with gates; sink "
@@ -100,6 +110,45 @@ def run(tier, seed, mutant=None, only_validate=False):
     finally:
         shutil.rmtree(work, ignore_errors=True)
     return res
+
+
+def observer(res, work, out, nt):
+    """segments whose results combine several elements (sliding_window, partition, zip of two sources, union) are judged
+    by Observer.tla against their local twin: values, order (serialised producers), callbacks never early / at most once,
+    the same elements signalled at the end"""
+    import acomposite
+    with open(os.path.join(out, "obs.json")) as f:
+        obs = json.load(f)
+    traces = [{k: r[k] for k in ("id", "ne", "nd", "lineage", "held", "ordered", "ev")} for r in obs]
+    reached, broken = acomposite.validate(work, traces)
+    res.traces += len(obs)
+    res.evaluations += sum(len(r["ev"]) for r in obs)
+    for r in obs:
+        got = reached.get(r["id"])
+        if got is None:
+            continue
+        c = r["cfg"]
+        if got[0] >= got[1]:
+            res.accepted += 1
+            nt.add(json.dumps([c, r["order"]]))
+            continue
+        if r["id"] in broken:
+            at, inv = broken[r["id"]]
+            why = "after event #%d %s the monitor's invariant %s is false" % (at, r["ev"][at - 1] if 0 < at <= len(r["ev"]) else "", inv)
+        else:
+            inv = "Complete"
+            why = ("at the end: deliveries %s of %d expected, callbacks fired for %s, expected all of 1..%d except the held %s"
+                   % (sorted(x["k"] for x in r["ev"] if x["ev"] == "Deliver"), r["nd"],
+                      sorted(x["e"] for x in r["ev"] if x["ev"] == "Fire"), r["ne"], r["held"]))
+        sig = dict(kind="dask-order", shape=c["shape"], producer="awaits" if c["await"] else "fire-and-forget") if inv == "InOrder" \
+            else dict(kind="dask-observer", shape=c["shape"], clause=inv)
+        res.violations.append(dict(
+            property="C20", engine="adask", clause=inv,
+            what="dask %s, tasks finished in order %s: %s (the local pipeline delivers %s)" % (json.dumps(c, sort_keys=True), r["order"], why,
+                                                                                             r["expected"]),
+            signature=sig, replay=dict(engine="adask", cfg=c, order=r["order"], ev=r["ev"])))
+    for r in obs[:1]:
+        res.samples.append(dict(cfg=r["cfg"], order=r["order"], expected=r["expected"], lineage=r["lineage"], held=r["held"], ev=r["ev"]))
 
 
 def canaries(tier, seed):
